@@ -245,6 +245,16 @@ def analyse(fi: FuncInfo, id_params: Set[str], id_collections: Set[str], graph_n
                 bad.append(u)
             sorts = [c for c in walk_local(fn) if isinstance(c, ast.Call) and isinstance(c.func, ast.Attribute) and c.func.attr == "sort"
                      and isinstance(c.func.value, ast.Name) and c.func.value.id == nm]
+            # `nm = tuple(sorted(nm))`: a later re-binding of the same name to an order-free form
+            rebinds = []
+            for d in defs.get(nm, []):
+                if d.kind == "assign" and d.value is not None:
+                    for c2 in ast.walk(d.value):
+                        if isinstance(c2, ast.Call) and isinstance(c2.func, ast.Name) and c2.func.id in ORDER_FREE \
+                                and any(isinstance(x, ast.Name) and x.id == nm for a in c2.args for x in ast.walk(a)):
+                            rebinds.append(d.stmt.lineno)
+            last_append = max((c3.lineno for _v, c3 in items), default=0)
+            bad = [u for u in bad if not any(last_append < rb < u.lineno for rb in rebinds)]
             if bad and not sorts:
                 unordered.append((bad[0], f"`{nm}` is filled in neighbour-iteration order ({norm(unordered_loop.iter)}) and reaches the label unsorted"))
     facts = {"id_names": sorted(tainted), "id_collections": sorted(colls), "value_names_in_label": sorted(seen)}
